@@ -210,6 +210,9 @@ class KNNSubgraph(Subgraph):
         neighbours_idx = np.zeros(k + 1)
         max_distances = np.zeros(k)
 
+        # The subgraph's density is re-gathered along with its new arcs
+        self.density = 0.0
+
         for i in range(self.n_nodes):
             distances.fill(c.FLOAT_MAX)
 
